@@ -557,6 +557,10 @@ with run_node_update (f : nat) (n : nat) (s : state) {struct f} : res unit :=
           | Some c, Some old =>
               let s3 := upd n (fun x => nd_cb None (nd_value None x)) s2 in
               do _, s4 <- dispose_children f' n s3;
+              (* a cleanup callback of the previous run may have disposed this very node (or the scope that owns it):
+                 a destroyed computation must not run again *)
+              if fx && negb (alive n s4) then Ok tt s4
+              else
               let prev := current s4 in
               let prevt := tracker s4 in
               do new, s5 <- run_body f' c (set_tracker (Some []) (set_current (Some n) s4));
@@ -874,6 +878,10 @@ Lemma run_node_update_S (f' : nat) (n : nat) (s : state) :
           | Some c, Some old =>
               let s3 := upd n (fun x => nd_cb None (nd_value None x)) s2 in
               do _, s4 <- dispose_children f' n s3;
+              (* a cleanup callback of the previous run may have disposed this very node (or the scope that owns it):
+                 a destroyed computation must not run again *)
+              if fx && negb (alive n s4) then Ok tt s4
+              else
               let prev := current s4 in
               let prevt := tracker s4 in
               do new, s5 <- run_body f' c (set_tracker (Some []) (set_current (Some n) s4));
